@@ -7,10 +7,9 @@ Well-formedness hypotheses used, and nothing else:
 * `hq : ∀ c ∈ m.Q.index, c < m.n`, `ha : ∀ c ∈ m.A.index, c < m.n` (column indices in range),
 * `hst : ∀ s ∈ m.Q.start, s ≤ m.Q.nnz` (row starts inside the nonzero array).
 
-Where the code on the unchanged tree violates the property, the full statement is kept in a comment,
-a `_partial` theorem carries the extra hypothesis, and a `C08_counterexample_*` theorem proves that the
-full statement is false for the model (each counterexample is also a corpus case replayed against the
-real code on every run: checks/c08.py `corpus_cases`).
+This is the version for the tree with repo_patches/C08-easy-api-fixes.diff applied: every statement is at
+full strength (the former `_partial` theorems and counterexamples of the unfixed code are gone; their
+corpus cases stay in checks/c08.py as regression inputs).
 -/
 namespace MpVerif.C08
 
@@ -60,79 +59,44 @@ theorem C08_header_integer_counts (m : MatrixModel) (text : Bool) (flags : Nat) 
     generalize isBin01 m x = c
     cases a <;> cases b <;> cases c <;> decide
 
-/- FULL STATEMENT (false on the unchanged tree, see `C08_counterexample_nlvo`):
-   theorem C08_header_nlvo (m) : (header m text flags).nlvo = (List.range m.n).countP (fun j => decide (key m j < 0))
-   Missing: `FillNonlinearVars` counts nonzeros, not distinct flagged columns. -/
-/-- `num_nl_vars_in_objs` is the size of the nonlinear block when no Hessian column index repeats -/
-theorem C08_header_nlvo_partial (m : MatrixModel) (text : Bool) (flags : Nat)
-    (hn : m.Q.index.Nodup) (hq : ∀ c ∈ m.Q.index, c < m.n) :
+/-- `num_nl_vars_in_objs` is the size of the nonlinear block -/
+theorem C08_header_nlvo (m : MatrixModel) (text : Bool) (flags : Nat) :
     (header m text flags).nlvo = (List.range m.n).countP (fun j => decide (key m j < 0)) := by
-  rw [count_lt_zero_nlv, count_nlv_of_nodup m hn hq]
+  rw [count_lt_zero_nlv]
   rfl
 
-/- FULL STATEMENT (false on the unchanged tree, see `C08_counterexample_types`):
-   theorem C08_types (m) (hq) (j) (hj : j < m.n) : decodeIsInt (header m text flags) (vperm m j) = isInt m j -/
-/-- the reader's type-by-position decoding gives column `j` its own integrality at its permuted
-position, when no Hessian column index repeats -/
-theorem C08_types_partial (m : MatrixModel) (text : Bool) (flags : Nat)
-    (hn : m.Q.index.Nodup) (hq : ∀ c ∈ m.Q.index, c < m.n) (j : Nat) (hj : j < m.n) :
+/-- the reader's type-by-position decoding gives column `j` its own integrality at its permuted position -/
+theorem C08_types (m : MatrixModel) (text : Bool) (flags : Nat) (j : Nat) (hj : j < m.n) :
     decodeIsInt (header m text flags) (vperm m j) = isInt m j :=
-  types_ok m text flags hn hq hj
+  types_ok m text flags hj
 
-/-- LP/MILP (no Hessian): types are always decoded right -/
-theorem C08_types_linear (m : MatrixModel) (text : Bool) (flags : Nat) (h0 : m.Q.index = [])
-    (j : Nat) (hj : j < m.n) : decodeIsInt (header m text flags) (vperm m j) = isInt m j :=
-  types_ok m text flags (by rw [h0]; exact List.nodup_nil) (by rw [h0]; intro c hc; cases hc) hj
-
-/-- two general-integer columns, triangular Hessian (0,0),(0,1),(1,1) -/
+/-- two general-integer columns, triangular Hessian (0,0),(0,1),(1,1): regression input of the former defect -/
 def cxTypes : MatrixModel :=
   { api := 0, n := 2, types := some [1, 1], lb := [.fin 0, .fin 0], ub := [.fin 5, .fin 5], sense := 0, c0 := 1,
     c := some [0, 0], qfmt := 1, Q := { start := [0, 2], index := [0, 1, 1], value := [2, 1, 2] }, m := 0, rlb := [], rub := [],
     A := { start := [], index := [], value := [] }, ws := [], dws := [], sufs := [], colNames := none, rowNames := none,
     objName := "obj" }
 
-theorem cxTypes_sorted : sortedPairs cxTypes = [(-1, 0), (-1, 1)] := by
-  have hp : pairs cxTypes = [(-1, 0), (-1, 1)] := by decide
-  unfold sortedPairs
-  rw [hp]
-  exact List.mergeSort_of_pairwise (by decide)
+example : (header cxTypes true 1).nlvo = 2 ∧ (header cxTypes true 1).nlvoi = 2 := by decide
 
-/-- the header says 3 nonlinear variables for a 2-column model -/
-theorem C08_counterexample_nlvo :
-    (header cxTypes true 1).nlvo = 3 ∧ (List.range cxTypes.n).countP (fun j => decide (key cxTypes j < 0)) = 2 := by
-  decide
-
-/-- integer column 0 sits at position 0, which the reader decodes as continuous -/
-theorem C08_counterexample_types :
-    isInt cxTypes 0 = true ∧ vperm cxTypes 0 = 0 ∧ decodeIsInt (header cxTypes true 1) (vperm cxTypes 0) = false := by
-  have h : vperm cxTypes 0 = 0 := by simp [vperm, order, cxTypes_sorted]
-  rw [h]
-  decide
-
-/- FULL STATEMENT (false, see `C08_counterexample_block`): every variable occurring in the quadratic part
-   sits in the leading (nonlinear) block: `∀ e ∈ qEntries m, key m e.1 < 0`. -/
-/-- column variables of Hessian entries are in the nonlinear block -/
-theorem C08_nonlinear_block_partial (m : MatrixModel) (pos : Nat) (hp : pos < m.Q.nnz) :
-    key m (qCol m pos) < 0 := by
-  have hmem : nlv m (qCol m pos) = true := by
-    unfold nlv qCol
-    rw [List.contains_iff_mem, getD_eq_getElem' _ _ hp]
-    exact List.getElem_mem hp
-  rw [key_eq, hmem]
-  generalize isInt m (qCol m pos) = b
-  cases b <;> simp
-
-/-- x0*x1 + x1*x2 + x2*x3 given as (0,1),(1,2),(2,3): the row variable 0 is never a column index -/
-def cxBlock : MatrixModel :=
-  { api := 0, n := 4, types := some [1, 0, 0, 0], lb := [.fin 0, .fin 0, .fin 0, .fin 0], ub := [.fin 10, .fin 10, .fin 10, .fin 10],
-    sense := 0, c0 := 0, c := some [1, 0, 1, 0], qfmt := 1, Q := { start := [0, 1, 2, 3], index := [1, 2, 3], value := [1, 1, 1] },
-    m := 0, rlb := [], rub := [], A := { start := [], index := [], value := [] }, ws := [], dws := [], sufs := [],
-    colNames := none, rowNames := none, objName := "obj" }
-
-/-- variable 0 occurs in the quadratic part but is classed (and counted) as a linear general integer -/
-theorem C08_counterexample_block :
-    (0, 0) ∈ qEntries cxBlock ∧ key cxBlock 0 = 2 ∧ (header cxBlock true 1).niv = 1 ∧ (header cxBlock true 1).nlvoi = 0 := by
-  decide
+/-- every variable occurring in the quadratic part sits in the leading (nonlinear) block -/
+theorem C08_nonlinear_block (m : MatrixModel) (e : Nat × Nat) (he : e ∈ qEntries m) :
+    key m e.1 < 0 ∧ key m (qCol m e.2) < 0 := by
+  have h1 : nlv m e.1 = true := by
+    unfold nlv
+    rw [List.any_eq_true]
+    exact ⟨e, he, by simp⟩
+  have h2 : nlv m (qCol m e.2) = true := by
+    unfold nlv
+    rw [List.any_eq_true]
+    exact ⟨e, he, by simp⟩
+  constructor
+  · rw [key_eq, h1]
+    generalize isInt m e.1 = b
+    cases b <;> simp
+  · rw [key_eq, h2]
+    generalize isInt m (qCol m e.2) = b
+    cases b <;> simp
 
 /-! ## 3. Bounds, names, rows -/
 
@@ -193,63 +157,30 @@ theorem C08_objective_same_function (m : MatrixModel) (hq : ∀ c ∈ m.Q.index,
     writtenObj m (fun p => x (vpermInv m p)) = objSpec m x :=
   writtenObj_eq m hq hst x
 
-/- FULL STATEMENT (false on the unchanged tree, see `C08_counterexample_unreadable`):
-   theorem C08_readable (m) : readable m = true   -- the written file is accepted by the NL reader -/
-theorem C08_readable_partial (m : MatrixModel) (h : m.Q.nnz = 0 ∨ 3 ≤ m.Q.nnz ∨ (2 ≤ m.Q.nnz ∧ m.c0 ≠ 0)) :
-    readable m = true := by
-  unfold readable sumArity
-  rcases h with h | h | ⟨h, hc⟩
-  · simp [h]
-  · simp only [Bool.or_eq_true, decide_eq_true_eq]; right; split <;> omega
-  · simp only [Bool.or_eq_true, decide_eq_true_eq]; right
-    have : (m.c0 != 0) = true := by simp [hc]
-    rw [this]; simp only [if_true]; omega
+/-- the `sum` node always has at least 3 arguments: the written file passes the reader's arity test -/
+theorem C08_readable (m : MatrixModel) : readable m = true := by
+  unfold readable sumArity numPad
+  simp only [Bool.or_eq_true, decide_eq_true_eq]
+  right
+  split <;> omega
 
-/-- minimize x0² -/
-def cxSum : MatrixModel :=
-  { api := 0, n := 2, types := none, lb := [.fin 0, .fin 0], ub := [.fin 10, .fin 10], sense := 0, c0 := 0, c := some [0, 0], qfmt := 1,
-    Q := { start := [0, 1], index := [0], value := [2] }, m := 0, rlb := [], rub := [], A := { start := [], index := [], value := [] },
-    ws := [], dws := [], sufs := [], colNames := none, rowNames := none, objName := "obj" }
-
-theorem C08_counterexample_unreadable : readable cxSum = false ∧ sumArity cxSum = 1 := by decide
-
-/- FULL STATEMENT (false, see `C08_counterexample_objvalue_null`):
-   theorem C08_objective_recomputed (m) (hst) (x) : computeObjValue m x = some (objSpec m x) -/
-/-- `ComputeObjValue` returns the caller's objective at the given point when linear coefficients were given -/
-theorem C08_objective_recomputed_partial (m : MatrixModel) (c : List Rat) (hc : m.c = some c)
+/-- `ComputeObjValue` returns the caller's objective at the given point (with or without linear coefficients) -/
+theorem C08_objective_recomputed (m : MatrixModel)
     (hst : ∀ s ∈ m.Q.start, s ≤ m.Q.nnz) (x : Nat → Rat) : computeObjValue m x = some (objSpec m x) :=
-  computeObjValue_eq m c hc hst x
-
-/-- without linear coefficients (`SetLinearObjective(sense, c0)`) the call dereferences a null pointer -/
-theorem C08_counterexample_objvalue_null (m : MatrixModel) (x : Nat → Rat) (hc : m.c = none) (hn : m.n ≠ 0) :
-    computeObjValue m x = none := by
-  simp [computeObjValue, hc, hn]
+  computeObjValue_eq m hst x
 
 /-! ## 5. Warm starts and suffixes -/
 
-/- FULL STATEMENT (false for the C wrapper, see `C08_counterexample_c_dual_warmstart`): the same without `hapi`. -/
 /-- the primal warm start read back at the permuted position is the caller's value; the dual one is
-passed through — C++ API -/
-theorem C08_warmstart_follow_partial (m : MatrixModel) (hapi : m.api = 0) (hw : ∀ e ∈ m.ws, e.1 < m.n)
+passed through — both APIs -/
+theorem C08_warmstart_follow (m : MatrixModel) (hw : ∀ e ∈ m.ws, e.1 < m.n)
     (j : Nat) (hj : j < m.n) :
     (dense m.n (feedInitialGuesses m)).getD (vperm m j) 0 = (dense m.n m.ws).getD j 0 ∧
     feedInitialDualGuesses m = m.dws := by
-  have h1 : effWs m = m.ws := by simp [effWs, hapi]
-  have h2 : effDws m = m.dws := by simp [effDws, hapi]
   constructor
-  · unfold feedInitialGuesses
-    rw [h1]
+  · unfold feedInitialGuesses effWs
     exact dense_reindex m m.ws hw hj
-  · unfold feedInitialDualGuesses
-    exact h2
-
-theorem C08_counterexample_c_dual_warmstart (m : MatrixModel) (hapi : m.api = 1) (hd : m.dws ≠ []) :
-    feedInitialDualGuesses m = [] ∧ feedInitialGuesses m = m.dws.map (fun e => (vperm m e.1, e.2)) := by
-  have hne : m.dws.isEmpty = false := by
-    cases h : m.dws with
-    | nil => exact absurd h hd
-    | cons _ _ => rfl
-  simp [feedInitialDualGuesses, feedInitialGuesses, effDws, effWs, hapi, hne]
+  · rfl
 
 /-- every entry written for a variable suffix is `(VPerm j, value_j)` (rounded for integer suffixes) of a
 nonzero caller value, and every nonzero caller value is written -/
@@ -314,11 +245,11 @@ theorem C08_unpermute_suffix (m : MatrixModel) (kind : Nat) (hk : kind % 4 = 0) 
 
 /-- the objective value recomputed from the returned solution is the caller's objective at the
 caller-order point the solver's values denote -/
-theorem C08_solution_objective (m : MatrixModel) (c : List Rat) (hc : m.c = some c)
+theorem C08_solution_objective (m : MatrixModel)
     (hst : ∀ s ∈ m.Q.start, s ≤ m.Q.nnz) (xs : List Rat) (hne : xs ≠ []) :
     computeObjValue m (fun j => (onPrimal m xs).getD j 0) =
       some (objSpec m (fun j => if j < m.n then xs.getD (vperm m j) 0 else 0)) := by
-  rw [computeObjValue_eq m c hc hst]
+  rw [computeObjValue_eq m hst]
   congr 2
   funext j
   by_cases hj : j < m.n
@@ -349,7 +280,7 @@ def ex6 : MatrixModel :=
 
 example : ex6.Q.index.Nodup ∧ (∀ c ∈ ex6.Q.index, c < ex6.n) ∧ (∀ s ∈ ex6.Q.start, s ≤ ex6.Q.nnz) := by decide
 example : (header ex6 true 1).nlvo = 3 ∧ (header ex6 true 1).nlvoi = 1 ∧ (header ex6 true 1).nbv = 1 ∧ (header ex6 true 1).niv = 1 := by decide
-example : readable ex6 = true := by decide
+example : readable ex6 = true := C08_readable ex6
 example : qEntries ex6 = [(4, 2), (3, 0), (3, 1)] ∧ entriesAsc ex6.Q.start ex6.n ex6.Q.nnz = [(3, 0), (3, 1), (4, 2)] := by decide
 
 end MpVerif.C08
